@@ -711,6 +711,41 @@ theorem schulze_new_full_witness :
     ⟨by decide +kernel, by decide +kernel, by decide +kernel⟩ (by decide +kernel) (by decide +kernel) (by decide +kernel)
   revert this; decide +kernel
 
+/-! ### the move "`w` joins the rank directly above it" (`joinAbove`: a tie with the former superior)
+
+  The move is generated for every ranked rule and checked by the correspondence and the oracle.  It is harmless on the
+  implementation for every positional rule with a convex score sequence, for Copeland, minimax and Schulze, and for
+  `PreferenceAddition` with the default splitting of shared ranks (no theorem yet: listed as unproved).  With UNSPLIT shared
+  ranks (`split_equal_rankings=False`) the ballot becomes one place shorter, every candidate below `w` is counted one round
+  earlier, and the rule itself lets `w` lose: -/
+
+/-- Bucklin with unsplit shared ranks: ballots (1,2), (0,2,1) elect 2 in the second round; after (0,2,1) → ({0,2},1)
+    candidate 1 is counted in the second round too and ties with 2 -/
+theorem bucklin_whole_join_witness :
+    ¬ ∀ (p : RProfile) (w : Cand) (b : Ballot), (∀ bw ∈ p, 0 ≤ bw.2) → b ∈ dkeys p → (ballotCands b).Nodup →
+      evalBucklin p = .ok [Slot.cand w] → evalBucklin (replaceUnit p b (joinAbove w b)) = .ok [Slot.cand w] := by
+  intro h
+  have := h [([.one 1, .one 2], 1), ([.one 0, .one 2, .one 1], 1)] 2 [.one 0, .one 2, .one 1]
+    (by decide +kernel) (by decide +kernel) (by decide +kernel) (by decide +kernel)
+  revert this; decide +kernel
+
+/-- the same with the coefficient list [1, 3/4, 1/2, 1/4]: ballots (1,2,0), (0,2) elect 2; after (1,2,0) → ({1,2},0) -/
+theorem preference_addition_whole_join_witness :
+    ¬ ∀ (coef : Nat → Rat) (p : RProfile) (w : Cand) (b : Ballot), CoefOK coef → (∀ bw ∈ p, 0 ≤ bw.2) → b ∈ dkeys p →
+      (ballotCands b).Nodup → evalPA coef p = .ok [Slot.cand w] →
+      evalPA coef (replaceUnit p b (joinAbove w b)) = .ok [Slot.cand w] := by
+  intro h
+  have := h (coefOfList [1, 3 / 4, 1 / 2, 1 / 4]) [([.one 1, .one 2, .one 0], 1), ([.one 0, .one 2], 1)] 2 [.one 1, .one 2, .one 0]
+    (coef_list_ok _ (by decide +kernel) (by decide +kernel)) (by decide +kernel) (by decide +kernel) (by decide +kernel)
+    (by decide +kernel)
+  revert this; decide +kernel
+
+-- with the default splitting the same move is harmless on this input: the split ballots keep three places
+example : evalBucklinSplit [([.one 1, .one 2], 1), ([.one 0, .one 2, .one 1], 1)] = .ok [Slot.cand 2] ∧
+    joinAbove 2 [.one 0, .one 2, .one 1] = [.shared [0, 2], .one 1] ∧
+    evalBucklinSplit (replaceUnit [([.one 1, .one 2], 1), ([.one 0, .one 2, .one 1], 1)] [.one 0, .one 2, .one 1]
+      (joinAbove 2 [.one 0, .one 2, .one 1])) = .ok [Slot.cand 2] := by decide +kernel
+
 /-! ## non-vacuity: concrete inputs that meet the hypotheses of the conditional theorems -/
 
 section examples
